@@ -100,7 +100,7 @@ func l1Corpus(c *Ctx, family string, sampleEvery int) []reqCase {
 		if sampleEvery > 1 && bi != 0 && bi != 1+int(c.Seed)%4 {
 			continue
 		}
-		for _, sub := range []string{"main", "noslash", "pathquery", "bodyquery", "shared"} {
+		for _, sub := range []string{"main", "noslash", "pathquery", "bodyquery", "bodymap", "shared"} {
 			f, _ := corpus.RoutingFile(bi, sub, fmt.Sprintf("%s.rb%d%s", family, bi, sub), fmt.Sprintf("lab/gen/%srb%d%s", family, bi, sub), fmt.Sprintf("%srb%d%s", family, bi, sub), &lit, false)
 			out = append(out, reqCase{ID: fmt.Sprintf("routes/base=%s/%s", corpus.BaseVariants[bi].Label, sub), Files: []*spec.File{f}})
 		}
